@@ -2073,6 +2073,11 @@ class AnsiStr(str):
         instance._s = ansi_string
         return instance
 
+    def __getnewargs__(self):
+        # copy and pickle re-create the object from these: hand over the formatted string itself rather than the str
+        # value, which would get parsed again
+        return (self._s,)
+
     @property
     def base_str(self) -> str:
         ''' Returns the base string without any formatting set. '''
